@@ -298,7 +298,10 @@ theorem Ok.apiMultiOp {row : OpRow} {maps : List MapObj} {m' : MapObj} (h : ∀ 
   obtain ⟨first, rest, rfl, _, _, h3, _, hcase⟩ := WFApi.apiMultiOp_ok hr
   have hf := (h first (List.mem_cons_self ..)).2.2
   rcases hcase with ⟨hk, _, _⟩ | ⟨hk, _, _⟩
-  · exact (MapObj.SentOK_congr hk h3).2 hf
+  · unfold multiKindE at hk
+    split at hk
+    · exact MapObj.sentOK_of_plain hk
+    · exact (MapObj.SentOK_congr hk h3).2 hf
   · unfold MapObj.SentOK Kind.sentOK
     split
     · rename_i n hn
